@@ -5,6 +5,7 @@ mod c03;
 mod c07;
 mod c09;
 mod c10;
+mod c11;
 mod c17;
 mod c18;
 mod c19;
@@ -55,6 +56,7 @@ fn main() {
                 "C07" => c07::check(&tier),
                 "C09" => c09::check(&tier),
                 "C10" => c10::check(&tier),
+                "C11" => c11::check(&tier),
                 "C17" => c17::check(&tier),
                 "C18" => c18::check(&tier),
                 "C19" => c19::check(&tier),
